@@ -40,6 +40,9 @@ int ref_eax_verify(const unsigned char *key, size_t klen, const unsigned char *n
 	const unsigned char *tag, size_t tlen);
 void ref_gcm_craft_nonce(const unsigned char *key, size_t klen,
 	const unsigned char *j0, unsigned char *nonce16);
+void ref_gcm_tag_model(const unsigned char *key, size_t klen, const unsigned char *nonce, size_t nlen,
+	const unsigned char *aad, size_t alen, const unsigned char *ct, size_t mlen,
+	unsigned long long abits, unsigned long long cbits, unsigned char *tag16);
 void ref_eax_craft_nonce(const unsigned char *key, size_t klen,
 	const unsigned char *n16, unsigned char *nonce16);
 
@@ -1364,6 +1367,93 @@ part_edge(int reps)
 }
 
 /* ------------------------------------------------------------------ */
+/* part lenblock: the 64-bit length fields of the last GHASH block of GCM (model-level).
+ *
+ * Lengths of 2^29 bytes and more cannot be streamed in a quick run, so the byte counters of the context
+ * (count_aad, count_ctr: fields declared in bearssl_aead.h) are advanced by 2^29 * k bytes (a multiple of the
+ * block size, k in {1, 8, 15}) right after br_gcm_flip(); the bit lengths then need more than 32 bits.  The tag
+ * must equal the spec-level GHASH over the same AAD / ciphertext with these lengths in the final block.  The
+ * ciphertext must not change.  The model is first tied to OpenSSL (ordinary lengths) in every case. */
+
+static void
+part_lenblock(int reps)
+{
+	static const unsigned ks[3] = { 1, 8, 15 };
+	int c, e, ki, which;
+
+	for (c = 0; c < n_combo; c ++) {
+		if (combos[c].mode != M_GCM) continue;
+		for (e = 0; e < reps; e ++) for (ki = 0; ki < 3; ki ++) for (which = 1; which <= 3; which ++) {
+			long long idx = (((long long)c * 64 + e) * 3 + ki) * 4 + which;
+			vf_rng r;
+			lctx lc;
+			unsigned char key[32], mt[16], tag[16], *d, *a;
+			size_t klen, nlen, alen, mlen, cut;
+			uint64_t add_a, add_c;
+			br_gcm_context *g;
+			msg_t m;
+
+			if (!mine()) continue;
+			vf_rng_init(&r, (uint64_t)g_seed, 0x60000000ull + (uint64_t)idx);
+			klen = 16 + 8 * (size_t)((c + e + ki) % 3);
+			vf_bytes(&r, key, sizeof key);
+			lc_open(&lc, &combos[c], key, klen);
+			nlen = (which == 3 && ki == 1) ? 1 + vf_below(&r, 64) : 12;
+			alen = vf_below(&r, 50);
+			mlen = (ki == 2 && which == 1) ? 0 : vf_below(&r, 120);
+			msg_alloc(&m, M_GCM, lc.key, klen, nlen, alen, mlen, 16, &r);
+			msg_ref(&m);
+			/* the model reproduces the OpenSSL tag for the true lengths */
+			ref_gcm_tag_model(lc.key, klen, m.nonce, nlen, m.aad, alen, m.ct, mlen,
+				(unsigned long long)alen << 3, (unsigned long long)mlen << 3, mt);
+			if (memcmp(mt, m.tag, 16) != 0) {
+				fprintf(stderr, "HARNESS_ASSERT gcm-tag-model-vs-evp\n");
+				exit(3);
+			}
+			add_a = (which & 1) ? ((uint64_t)ks[ki] << 29) : 0;
+			add_c = (which & 2) ? ((uint64_t)ks[(ki + (which == 3)) % 3] << 29) : 0;
+			ref_gcm_tag_model(lc.key, klen, m.nonce, nlen, m.aad, alen, m.ct, mlen,
+				((unsigned long long)alen + add_a) << 3, ((unsigned long long)mlen + add_c) << 3, mt);
+
+			g = lc.ctx;
+			a = vf_dup(m.aad, alen);
+			d = vf_dup(m.msg, mlen);
+			{
+				unsigned char *nb = vf_dup(m.nonce, nlen);
+				br_gcm_reset(g, nb, nlen);
+				free(nb);
+			}
+			br_gcm_aad_inject(g, a, alen);
+			br_gcm_flip(g);
+			g->count_aad += add_a;
+			g->count_ctr += add_c;
+			cut = vf_below(&r, (uint32_t)mlen + 1);
+			br_gcm_run(g, 1, d, cut);
+			br_gcm_run(g, 1, d + cut, mlen - cut);
+			memset(tag, 0, 16);
+			br_gcm_get_tag(g, tag);
+			vf_stat("cmp_gcm_length_block", 1);
+			vf_distinct("lenblock", "%s/k%u/%s", lc.desc, ks[ki], which == 1 ? "aad" : which == 2 ? "data" : "both");
+			if (memcmp(d, m.ct, mlen) != 0) {
+				vf_viol("C14:lenblock:gcm:ciphertext", "ciphertext changed when the byte counters were advanced by a multiple of the block size",
+					"%s add_aad=0x%llx add_data=0x%llx got=%s want=%s", msg_str(&lc, &m), (unsigned long long)add_a, (unsigned long long)add_c,
+					vf_hexs(d, mlen), vf_hexs(m.ct, mlen));
+			}
+			if (memcmp(tag, mt, 16) != 0) {
+				vf_viol("C14:lenblock:gcm:tag", "tag differs from the spec-level GHASH with bit lengths beyond 2^32 in the final block",
+					"%s count_aad+=0x%llx count_ctr+=0x%llx got=%s want=%s", msg_str(&lc, &m), (unsigned long long)add_a, (unsigned long long)add_c,
+					vf_hexs(tag, 16), vf_hexs(mt, 16));
+			}
+			if (idx % 97 == 0) vf_sample("{\"part\":\"lenblock\",\"impl\":\"%s\",\"count_aad_add\":\"0x%llx\",\"count_ctr_add\":\"0x%llx\",\"tag\":\"%s\"}",
+				lc.desc, (unsigned long long)add_a, (unsigned long long)add_c, vf_hexs(tag, 16));
+			free(a); free(d);
+			msg_free(&m);
+			lc_close(&lc);
+		}
+	}
+}
+
+/* ------------------------------------------------------------------ */
 
 static void
 ref_selftest(void)
@@ -1417,6 +1507,7 @@ main(int argc, char **argv)
 	if (all || !strcmp(part, "flip")) part_flip((int)vf_argi(argc, argv, "--flip-msgs", 8));
 	if (all || !strcmp(part, "ccm")) part_ccm((int)vf_argi(argc, argv, "--ccm-decl", 50));
 	if (all || !strcmp(part, "edge")) part_edge((int)vf_argi(argc, argv, "--edge", 1));
+	if (all || !strcmp(part, "lenblock")) part_lenblock((int)vf_argi(argc, argv, "--edge", 1));
 	vf_done();
 	return 0;
 }
